@@ -490,8 +490,8 @@ class Program:
             st.extend(self.callees.get(x, ()))
         return out
 
-    def inlined(self, fn):
-        return inlined(self, fn)
+    def inlined(self, fn, keep=()):
+        return inlined(self, fn, keep=keep)
 
     def impls_of(self, trait):
         return [i for i in self.impls if i.get("trait") == trait]
@@ -714,18 +714,18 @@ def exclusive_helpers(prog, fn):
                     if (c.callee.get("res") or c.callee.get("path")) != t and len(prog.call_targets(c)) != 1:
                         continue
                     sites = prog.call_sites.get(t, [])
-                    if sites and all((s.fn.root if s.fn.is_closure else s.fn.id) in scope for s in sites) and not any(
+                    if sites and all((s.fn.id in scope or (s.fn.is_closure and s.fn.root in scope)) for s in sites) and not any(
                             (c2.callee.get("res") or c2.callee.get("path")) == t for g2 in prog.family(h) for c2 in g2.calls):
                         helpers[t] = h
                         changed = True
     return helpers
 
 
-def inlined(prog, fn, max_rounds=4):
+def inlined(prog, fn, max_rounds=4, keep=()):
     """A view of `fn` in which calls to its exclusive helpers (see exclusive_helpers) are replaced by the helper's body: a new Fn
     whose CFG contains the helpers' blocks.  Rules about a function's protocol (what happens on every path) stay valid when a
     maintainer extracts part of it into a private helper or splits it in two.  Returns `fn` itself when it has no such helper."""
-    helpers = exclusive_helpers(prog, fn)
+    helpers = {k: h for k, h in exclusive_helpers(prog, fn).items() if h.name not in keep}
     if not helpers:
         return fn
     d = json.loads(json.dumps(fn.d))
